@@ -251,3 +251,45 @@ Qed.
 Lemma hardlink_denotes_target : forall es h t, find_ent es (cname h) = Some h ->
   resolve_in es h = Some t -> node_at es (cname h) = Some (node_of_ent es t).
 Proof. intros es h t Hf Hr. unfold node_at. rewrite Hf, Hr. reflexivity. Qed.
+
+(* the general form of "the last duplicate wins": an entry that no later entry of the archive names again
+   is the entry found for its name *)
+Lemma find_app_some : forall {A} (f : A -> bool) l1 l2 x, find f l1 = Some x -> find f (l1 ++ l2) = Some x.
+Proof.
+  induction l1 as [|y t IH]; intros l2 x H; simpl in *; [discriminate|]. destruct (f y); [assumption|]. apply IH. assumption.
+Qed.
+
+Lemma dedup_acc_last_of_name : forall l2 l1 e,
+  Forall (fun x => cname x <> cname e) l2 ->
+  find (fun x => path_eqb (cname x) (cname e)) (dedup_acc (l1 ++ e :: l2) []) = Some e.
+Proof.
+  induction l2 as [|y t IH] using rev_ind; intros l1 e H.
+  - rewrite dedup_acc_snoc. rewrite find_app_none by apply find_filter_none. simpl. rewrite path_eqb_refl. reflexivity.
+  - apply Forall_app in H. destruct H as (Ht & Hy). inversion Hy as [|? ? Hne _]; subst.
+    replace (l1 ++ e :: t ++ [y]) with ((l1 ++ e :: t) ++ [y]) by (rewrite <- app_assoc; reflexivity).
+    rewrite dedup_acc_snoc. apply find_app_some.
+    rewrite filter_find_comm.
+    + apply IH. assumption.
+    + intros x Hx. apply path_eqb_eq in Hx. apply negb_true_iff.
+      destruct (path_eqb (cname x) (cname y)) eqn:E; [|reflexivity].
+      apply path_eqb_eq in E. congruence.
+Qed.
+
+Lemma last_of_name_wins : forall l1 e l2, reserved (cname e) = false ->
+  Forall (fun x => cname x <> cname e) l2 ->
+  find_ent (dedup (l1 ++ e :: l2)) (cname e) = Some e.
+Proof.
+  intros l1 e l2 Hr H. unfold find_ent, dedup. rewrite filter_find_comm.
+  - apply dedup_acc_last_of_name. assumption.
+  - intros x Hx. apply path_eqb_eq in Hx. rewrite Hx, Hr. reflexivity.
+Qed.
+
+(* and an earlier entry of a name that is named again later is never served *)
+Lemma dedup_acc_in : forall es acc x, In x (dedup_acc es acc) -> In x acc \/ In x es.
+Proof.
+  induction es as [|e t IH]; intros acc x H; simpl in *; [left; assumption|].
+  apply IH in H. destruct H as [H|H]; [|right; right; assumption].
+  apply in_app_or in H. destruct H as [H|H].
+  - apply filter_In in H. left. tauto.
+  - simpl in H. destruct H as [->|[]]. right; left; reflexivity.
+Qed.
